@@ -1,7 +1,8 @@
 #!/bin/bash
-# tools/seed2eval.sh ID...  -- evaluate round-2 seeds from /tmp/seed2-ID into seeded/ID-2, remove worktree
+# ROUND=<n> tools/seed2eval.sh ID...  -- evaluate round-n seeds (default 2) from /tmp/seed<n>-ID into seeded/ID-<n>, remove worktree
+R=${ROUND:-2}
 for p in "$@"; do
-  R=$(tools/seedeval.sh $p /tmp/seed2-$p/_seed $p-2 2>&1 | grep -o '"check_quick_violation_lines": [0-9]*, "check_thorough_violation_lines": "[^"]*", "caught": [a-z]*\|patch does not apply')
-  echo "$p-2: $R"
-  git -C /repo worktree remove --force /tmp/seed2-$p 2>/dev/null
+  O=$(tools/seedeval.sh $p /tmp/seed$R-$p/_seed $p-$R 2>&1 | grep -o '"check_quick_violation_lines": [0-9]*, "check_thorough_violation_lines": "[^"]*", "caught": [a-z]*\|patch does not apply')
+  echo "$p-$R: $O"
+  git -C /repo worktree remove --force /tmp/seed$R-$p 2>/dev/null
 done
